@@ -191,4 +191,5 @@ Inductive rw := R | W.
 Inductive item :=
 | IAcc (l : loc) (k : rw) (h : held)        (* access to a shared location, locks syntactically held *)
 | ICall (callee : string) (h : held).       (* call of / reference to a function of the package *)
+(* f_init_only: not reachable from any exported function, stored closure or package-level initialiser *)
 Record func := { f_name : string; f_init_only : bool; f_body : list item }.
